@@ -281,6 +281,11 @@ pub const NUM_ALTS: &[&str] = &[
     "5e-324",
     "1e999",
     "-9223372036854775808",
+    "9223372036854775807",
+    "18446744073709551615",
+    "18446744073709551614",
+    "4294967295",
+    "4294967296",
     "null",
     "\"\"",
     "true",
@@ -301,6 +306,9 @@ pub const STR_ALTS: &[&str] = &[
     "\"Mon\"",
     "\"2000-01-01T00:00:00\"",
     "\"\\u00e9\\u00e9\\u00e9\"",
+    "\"tgt,ldn|東京証券取引所の休日カレンダーの名前\"",
+    "\"€a€€b€€€c€€€€d€€€€€e€€€€€€f\"",
+    "\"aaaaaaaaaaaaaaaaaaaaaaaaaaaaaaaaaaaaaaaaaaaaaaaaaaaaaaaaaaaaaaaaaaaaaaaaaaaaaaaa\"",
     "null",
     "0",
     "[]",
